@@ -13,7 +13,9 @@ integer(k) / pi, local `RCP<const T> v = <expr>;` bindings).  Recognised stateme
            with <x is self> = `x->get_name() == self.get_name()` (by name) or `eq(*x, self)` (by eq)
   zero     result_ = zero;
   fdiff    result_ = fdiff(self, x, *this);
-  deriv    result_ = Derivative::create(self.rcp_from_this(), {x});
+  deriv    result_ = Derivative::create(self.rcp_from_this(), {x});                 (also macro DIFF0)
+  derivdep apply(self.get_arg()); if (neq(*result_, *zero)) { result_ = Derivative::create(...); }
+           (also macro DIFF_MINMAX: all arguments)
   throw    throw <Exn>("...");
   fdiff overload   if (index == k) { *ret = <expr>; return true; } else { return false; }
 
@@ -317,16 +319,27 @@ def main():
     src = re.sub(r"/\*.*?\*/", "", src, flags=re.S)
     src = re.sub(r"//[^\n]*", "", src)
     debug_methods = re.search(r"^\s*#define\s+debug_methods\b", re.sub(r"//[^\n]*", "", hdr), re.M) is not None
-    # the DIFF0 macro: classes differentiated to an unevaluated Derivative
-    m = re.search(r"#define DIFF0\(CLASS\)\s*\\\n(.*?)\n\n", src, re.S)
-    if not m:
+    # macros: DIFF0 = classes differentiated to an unevaluated Derivative; DIFF_MINMAX = zero when no
+    # argument depends on x, else an unevaluated Derivative
+    def take_macro(name, expected):
+        nonlocal src
+        m = re.search(r"#define %s\(CLASS\)\s*\\\n(.*?)\n\n" % name, src, re.S)
+        if not m:
+            return None
+        body = norm(m.group(1).replace("\\", ""))
+        if body != norm(expected):
+            raise Bad("macro %s has an unrecognised body" % name)
+        src = src[:m.start()] + src[m.end():]
+        uses = re.findall(r"^%s\((\w+)\)\s*$" % name, src, re.M)
+        src = re.sub(r"^%s\((\w+)\)\s*$" % name, "", src, flags=re.M)
+        return uses
+
+    diff0 = take_macro("DIFF0", "void DiffVisitor::bvisit(const CLASS &self) { result_ = Derivative::create(self.rcp_from_this(), {x}); }")
+    if diff0 is None:
         raise Bad("DIFF0 macro not found")
-    macro_body = norm(m.group(1).replace("\\", ""))
-    if macro_body != norm("void DiffVisitor::bvisit(const CLASS &self) { result_ = Derivative::create(self.rcp_from_this(), {x}); }"):
-        raise Bad("DIFF0 macro has an unrecognised body")
-    src = src[:m.start()] + src[m.end():]
-    diff0 = re.findall(r"^DIFF0\((\w+)\)\s*$", src, re.M)
-    src = re.sub(r"^DIFF0\((\w+)\)\s*$", "", src, flags=re.M)
+    minmax = take_macro("DIFF_MINMAX", """void DiffVisitor::bvisit(const CLASS &self) { bool depends = false;
+        for (const auto &a : self.get_args()) { apply(a); if (neq(*result_, *zero)) { depends = true; } }
+        if (depends) { result_ = Derivative::create(self.rcp_from_this(), {x}); } else { result_ = zero; } }""") or []
     # conditional compilation: keep the branch the header selects for debug_methods; optional
     # back ends (piranha, flint) are not part of the verified configuration
     lines = src.split("\n")
@@ -355,6 +368,7 @@ def main():
     src = "\n".join(keep)
     if not debug_methods:
         diff0 = []
+        minmax = []
 
     def body_at(start):
         i = src.index("{", start)
@@ -380,6 +394,7 @@ def main():
     zero = []
     fdiffc = []
     derivc = list(diff0)
+    derivdep = list(minmax)      # zero when every argument has derivative 0, else Derivative(self, x)
     throws = []
     hand = []
     sym_mode = None
@@ -397,6 +412,9 @@ def main():
             continue
         if nb == norm("result_ = Derivative::create(self.rcp_from_this(), {x});"):
             derivc.append(cls)
+            continue
+        if nb == norm("apply(self.get_arg()); if (neq(*result_, *zero)) { result_ = Derivative::create(self.rcp_from_this(), {x}); }"):
+            derivdep.append(cls)
             continue
         m = re.match(r'^throw(\w+)\("[^"]*"\);$', nb)
         if m:
@@ -502,6 +520,10 @@ def main():
     out.append("Definition zero_classes : list string := [%s]." % "; ".join('"%s"' % c for c in zero))
     out.append("Definition fdiff_classes : list string := [%s]." % "; ".join('"%s"' % c for c in fdiffc))
     out.append("Definition deriv_classes : list string := [%s]." % "; ".join('"%s"' % c for c in derivc))
+    out.append("(* classes differentiated to an unevaluated Derivative(self, x) whatever the arguments *)")
+    out.append("Definition deriv_codes : list N := [%s]." % "; ".join("TC_%s" % c for c in derivc))
+    out.append("(* classes differentiated to 0 when every argument has derivative 0, else to Derivative(self, x) *)")
+    out.append("Definition deriv_if_dep_codes : list N := [%s]." % "; ".join("TC_%s" % c for c in derivdep))
     out.append("Definition throw_classes : list (string * N) := [%s]." % "; ".join('("%s", %d%%N)' % c for c in throws))
     out.append("")
     out.append("(* fingerprints of the bodies transcribed by hand in DiffModel.v *)")
